@@ -8,7 +8,20 @@ import (
 	"sort"
 	"strings"
 
+	codectypes "github.com/cosmos/cosmos-sdk/codec/types"
 	sdk "github.com/cosmos/cosmos-sdk/types"
+
+	coinswaptypes "mods.irisnet.org/modules/coinswap/types"
+	farmtypes "mods.irisnet.org/modules/farm/types"
+	htlctypes "mods.irisnet.org/modules/htlc/types"
+	mttypes "mods.irisnet.org/modules/mt/types"
+	nfttypes "mods.irisnet.org/modules/nft/types"
+	oracletypes "mods.irisnet.org/modules/oracle/types"
+	randomtypes "mods.irisnet.org/modules/random/types"
+	recordtypes "mods.irisnet.org/modules/record/types"
+	servicetypes "mods.irisnet.org/modules/service/types"
+	tokenv1 "mods.irisnet.org/modules/token/types/v1"
+	tokenv1beta1 "mods.irisnet.org/modules/token/types/v1beta1"
 
 	"verifharness/lib"
 )
@@ -112,8 +125,14 @@ func repoRoot() string {
 // registeredMsgs lists the type URLs that the application's interface registry (the one the
 // SimApp builds from the ten modules' RegisterInterfaces) resolves as sdk.Msg implementations.
 func registeredMsgs() []string {
-	e := lib.NewEnv(lib.EnvOpts{NActors: 1})
-	urls := e.App.InterfaceRegistry().ListImplementations(sdk.MsgInterfaceProtoName)
+	urls, err := appRegistered()
+	if err != nil {
+		// the application does not even start (baseapp's MsgServiceRouter refuses a service whose
+		// request type is not registered): fall back to what the modules' RegisterInterfaces
+		// functions register on a fresh registry, so that the unregistered message can be named
+		fmt.Fprintln(os.Stderr, "proto: application does not start, using the modules' RegisterInterfaces directly:", err)
+		urls = directRegistered()
+	}
 	var out []string
 	for _, u := range urls {
 		if strings.HasPrefix(u, "/irismod.") {
@@ -122,6 +141,33 @@ func registeredMsgs() []string {
 	}
 	sort.Strings(out)
 	return out
+}
+
+func appRegistered() (urls []string, err error) {
+	defer func() {
+		if r := recover(); r != nil {
+			err = fmt.Errorf("%v", r)
+		}
+	}()
+	e := lib.NewEnv(lib.EnvOpts{NActors: 1})
+	return e.App.InterfaceRegistry().ListImplementations(sdk.MsgInterfaceProtoName), nil
+}
+
+func directRegistered() []string {
+	reg := codectypes.NewInterfaceRegistry()
+	sdk.RegisterInterfaces(reg) // declares the interface cosmos.base.v1beta1.Msg itself
+	for _, f := range []func(codectypes.InterfaceRegistry){
+		coinswaptypes.RegisterInterfaces, farmtypes.RegisterInterfaces, htlctypes.RegisterInterfaces,
+		mttypes.RegisterInterfaces, nfttypes.RegisterInterfaces, oracletypes.RegisterInterfaces,
+		randomtypes.RegisterInterfaces, recordtypes.RegisterInterfaces, servicetypes.RegisterInterfaces,
+		tokenv1.RegisterInterfaces, tokenv1beta1.RegisterInterfaces,
+	} {
+		func() {
+			defer func() { _ = recover() }()
+			f(reg)
+		}()
+	}
+	return reg.ListImplementations(sdk.MsgInterfaceProtoName)
 }
 
 func gallinaAll() string {
